@@ -1044,7 +1044,28 @@ func runHistory(c *hx.Ctx, r *hx.Rng, idx int, workers int) error {
 
 	// phase 2: recover every image
 	imgs := rc.images
+	// crash during recovery: the recovery of a few images whose durable state is inside the exactness
+	// condition is itself run under an observer (sequentially: the observer is process-wide)
+	var imgs2 []*image2
+	if panicked == "" {
+		var cand []int
+		for i, img := range imgs {
+			if !img.window && !img.torn && !(img.pl && !rc.sync0) && strings.Contains(img.opLine, " wal=") && !strings.Contains(img.opLine, " wal= ") {
+				cand = append(cand, i)
+			}
+		}
+		nObs := 1
+		if c.Tier == "thorough" {
+			nObs = 2
+		}
+		for k := 0; k < nObs && len(cand) > 0; k++ {
+			j := r.Intn(len(cand))
+			imgs2 = append(imgs2, observeRecovery(imgs[cand[j]], nParts, imgRoot, k)...)
+			cand = append(cand[:j], cand[j+1:]...)
+		}
+	}
 	answers := make([]string, len(imgs))
+	answers2 := make([]string, len(imgs2))
 	var wg sync.WaitGroup
 	ch := make(chan int)
 	for w := 0; w < workers; w++ {
@@ -1052,9 +1073,17 @@ func runHistory(c *hx.Ctx, r *hx.Rng, idx int, workers int) error {
 		go func() {
 			defer wg.Done()
 			for i := range ch {
-				answers[i] = recoverImage(imgs[i], nParts)
+				if i < len(imgs) {
+					answers[i] = recoverImage(imgs[i], nParts)
+				} else {
+					answers2[i-len(imgs)] = recoverImage2(imgs2[i-len(imgs)], nParts)
+				}
 			}
 		}()
+	}
+	// the second-level images first: their parents' directories are consumed by the first-level recovery
+	for i := range imgs2 {
+		ch <- len(imgs) + i
 	}
 	for i := range imgs {
 		ch <- i
@@ -1065,12 +1094,14 @@ func runHistory(c *hx.Ctx, r *hx.Rng, idx int, workers int) error {
 		c.Count("history:measurement-order-of-a-flush-not-enforced")
 	}
 	inFlushWindow := 0
+	lineOf := map[*image]int{}
 	for i, img := range imgs {
 		ansLine := answers[i]
 		if img.window {
 			ansLine += " window" // the durable state is outside the model's exactness condition
 		}
 		line := c.Emit(img.opLine, ansLine)
+		lineOf[img] = line
 		if df, e := os.OpenFile(filepath.Join(c.Out, "descs.txt"), os.O_CREATE|os.O_APPEND|os.O_WRONLY, 0o644); e == nil {
 			fmt.Fprintf(df, "%d\t%s\n", line, img.desc)
 			df.Close()
@@ -1106,6 +1137,20 @@ func runHistory(c *hx.Ctx, r *hx.Rng, idx int, workers int) error {
 		}
 		if !ok {
 			c.Violation(line, img.class, fmt.Sprintf("%s: recovered %q, acknowledged state %q (acked=%d inflight=%d torn=%v)", img.desc, answers[i], specOf(batches, img.acked), img.acked, img.inflight, img.torn))
+		}
+	}
+	for i, im := range imgs2 {
+		p := im.parent
+		ok := answers2[i] == specOf(batches, p.acked)
+		if !ok && p.inflight >= 0 {
+			ok = answers2[i] == specOf(batches, p.inflight+1)
+		}
+		c.Count("image:crash-during-recovery")
+		if im.class != "" {
+			c.Count("crash-during-recovery:inside-the-removal-of-the-replayed-wal-files")
+		}
+		if !ok {
+			c.Violation(lineOf[p], im.class, fmt.Sprintf("%s; crash %s, recovered again: %q, acknowledged state %q (acked=%d inflight=%d)", p.desc, im.desc, answers2[i], specOf(batches, p.acked), p.acked, p.inflight))
 		}
 	}
 	c.Case(fmt.Sprintf("%d:%s:%d", idx, kinds, nParts), overwrite && inFlushWindow > 0)
